@@ -24,9 +24,9 @@ import (
 // The oracle is an offset table computed from the raw input alone: for every rune boundary
 // the (line, column) in UTF-8 bytes or UTF-16 code units, newline = '\n' only.
 type c02Case struct {
-	Text   []byte `json:"text"`    // base64 in JSON; valid UTF-8 unless Kind says otherwise
-	UTF16  bool   `json:"utf16"`   // UTF16Pos option
-	Encode bool   `json:"encode"`  // feed the parser the UTF-16LE+BOM encoding of Text
+	Text   []byte `json:"text"`   // base64 in JSON; valid UTF-8 unless Kind says otherwise
+	UTF16  bool   `json:"utf16"`  // UTF16Pos option
+	Encode bool   `json:"encode"` // feed the parser the UTF-16LE+BOM encoding of Text
 	Kind   string `json:"kind"`
 }
 
